@@ -865,14 +865,14 @@ func main() {
 	}
 	for i := 0; i < nAPISets; i++ {
 		apis = append(apis, &cq.Set{
-			Name: fmt.Sprintf("c03api%d", i), Import: "IV.Check.C03Check", CaseType: "api_case",
-			Checks: []string{"api_mismatches", "api_spec_failures"},
+			Name: fmt.Sprintf("c03api%d", i), Import: "IV.Check.C03StreamCheck", CaseType: "api_case",
+			Checks: []string{"api_mismatches", "api_spec_failures", "api_stream_failures"},
 		})
 	}
 	core, api := cores[0], apis[0]
 	wrap := &cq.Set{
 		Name: "c03wrap", Import: "IV.Check.C03WrapCheck", CaseType: "wrap_case",
-		Checks: []string{"wrap_mismatches", "wrap_spec_failures"},
+		Checks: []string{"wrap_mismatches", "wrap_spec_failures", "wrap_stream_failures"},
 	}
 	all := append(append([]*cq.Set{}, cores...), apis...)
 	load := func(path, bucket string) {
@@ -948,9 +948,10 @@ func main() {
 		extra["wrap_tick_method"] = "free-running ticker loop (interval 5 us); a counting stream is NACKed once per cycle, " +
 			"the harness waits for that NACK before the next cycle: at least 65600 real ticks"
 	}
-	cq.Write(o, "core: receiveLog histories (8..100 add calls with missingSeqNumbers queries in between, sizes 64..32768, "+
+	cq.Write(o, "core: receiveLog histories (8..100 add calls with missingSeqNumbers and get queries in between, sizes 64..32768, "+
 		"traffic modes in-order/window-edge/half-range/uniform), non-trivial = at least one query returned a non-empty list; "+
 		"api: GeneratorInterceptor histories over 1..3 nack streams + optional non-nack stream + sentinel, 4..13 ticks, "+
-		"non-trivial = at least one NACK for a non-sentinel stream",
+		"non-trivial = at least one NACK for a non-sentinel stream; "+
+		"wrap (thorough tier): one run of the free-running real ticker loop over more than 2^16 ticks",
 		all, extra, nil)
 }
